@@ -66,6 +66,10 @@ def pipeline_candidates(scn):
         c = copy.deepcopy(s)
         del c["add_after_run"]
         yield c
+    if s.get("edit_after_run"):
+        c = copy.deepcopy(s)
+        del c["edit_after_run"]
+        yield c
     for k in ("twin_on", "alt_on"):
         if s.get(k):
             c = copy.deepcopy(s)
